@@ -560,6 +560,10 @@ func (m *InterpModel) Instr(mc *Machine, st *State, in ssa.Instruction, ops []AV
 	case *ssa.MapUpdate:
 		e := m.ev(in, "mapstore", argStrings(ops), "")
 		m.Emit(st, e)
+	case *ssa.Lookup:
+		if _, isMap := x.X.Type().Underlying().(*types.Map); isMap {
+			m.Emit(st, m.ev(in, "maplookup", argStrings(ops), ""))
+		}
 	case *ssa.Next:
 		// outcome is decided at the following If; record the iteration source
 	case *ssa.Panic:
@@ -630,6 +634,22 @@ func (m *InterpModel) Branch(mc *Machine, st *State, in *ssa.If, cond AV, taken 
 			}
 		}
 	}
+	// comma-ok map lookups and type tests
+	if cond.K == KSym && strings.HasPrefix(cond.S, "has:") {
+		t := taken
+		if cond.Neg {
+			t = !t
+		}
+		m.Emit(st, m.ev(in, "has", []string{strings.TrimPrefix(cond.S, "has:")}, fmt.Sprint(t)))
+		return
+	}
+	if ex, ok := in.Cond.(*ssa.Extract); ok && ex.Index == 1 {
+		if ta, ok := ex.Tuple.(*ssa.TypeAssert); ok {
+			subj := mc.eval(st, st.Top(), ta.X)
+			m.Emit(st, m.ev(in, "typetest", []string{subj.String(), typeStr(ta.AssertedType)}, fmt.Sprint(taken)))
+			return
+		}
+	}
 	// flag tests
 	if u, ok := in.Cond.(*ssa.UnOp); ok {
 		if g, ok := u.X.(*ssa.Global); ok && g == m.ii.FlagRT {
@@ -669,16 +689,16 @@ func (m *InterpModel) Return(mc *Machine, st *State, ret *ssa.Return, results []
 	for i, r := range results {
 		e.KV[fmt.Sprintf("r%d", i)] = r.String()
 		if r.K == KSym {
-			// signal objects: expose fields
-			for _, f := range []string{"Type", "Value", "LineNumber"} {
-				if v, ok := st.Heap[r.S+"."+f]; ok {
-					e.KV[fmt.Sprintf("r%d.%s", i, f)] = v.String()
-				} else if strings.HasPrefix(r.S, "obj:") {
-					switch f {
-					case "Type", "LineNumber":
-						e.KV[fmt.Sprintf("r%d.%s", i, f)] = "0"
-					default:
-						e.KV[fmt.Sprintf("r%d.%s", i, f)] = "nil"
+			// objects built on this path: expose their fields
+			for k, v := range st.Heap {
+				if strings.HasPrefix(k, r.S+".") {
+					e.KV[fmt.Sprintf("r%d.%s", i, k[len(r.S)+1:])] = v.String()
+				}
+			}
+			if strings.HasPrefix(r.S, "obj:") {
+				for f, zero := range map[string]string{"Type": "0", "LineNumber": "0", "Value": "nil"} {
+					if _, ok := e.KV[fmt.Sprintf("r%d.%s", i, f)]; !ok && strings.Contains(typeStr(ret.Results[i].Type()), "ControlFlowSignal") {
+						e.KV[fmt.Sprintf("r%d.%s", i, f)] = zero
 					}
 				}
 			}
